@@ -278,6 +278,24 @@ theorem c09_decrypt_total_concrete (s0 s1 : Bytes) (n : Nat)
   obtain ⟨h1, _, _, _, h5, _, _, _, h9, _, _⟩ := c09_instance_meets_hypotheses s0 s1 n
   exact c09_decrypt_total P h1 h5 h9 input secret ad reuse mode r out
 
+/-- What the HISTORY stream of the tie instantiates (header `hist`: the harness keeps the key /
+secret, iv / nonce, additional data and dst of all calls of a case in the SAME backing arrays
+and overwrites them in place between the calls): in the model a call has no memory — the
+answer to each line is a function of that line alone, whatever was called before with whatever
+was in those buffers, and equals the answer in the ordinary mode.  (True by construction — the
+model's entry points are pure functions — and recorded here because it is exactly what the
+call-by-call comparison then demands of the real code: no cipher, schedule, iv or credential
+retained BY REFERENCE from an earlier call.) -/
+theorem c09_history_is_memoryless (pre ops : List String) :
+    runCase ["hist"] ops = "ok" :: ops.map (fun l => step (Golib.Proto.toks l)) ∧
+    runCase ["hist"] ops = runCase ["x"] ops ∧
+    (runCase ["hist"] (pre ++ ops)).drop (1 + pre.length) = (runCase ["hist"] ops).drop 1 := by
+  refine ⟨rfl, rfl, ?_⟩
+  simp only [runCase, List.map_append, List.drop_succ_cons, List.drop_zero]
+  rw [Nat.add_comm, List.drop_succ_cons]
+  have : pre.length = (pre.map fun l => step (Golib.Proto.toks l)).length := by simp
+  rw [this, List.drop_left]
+
 /-- The facts the model hard-codes, against `Golib/Gen/FactsC09.lean`, which the go/ast
 extractor regenerates from `cryptz/crypt.go` on every run — above all WHICH call fills the
 16-byte header in `DecryptStreamTo`: the theorems above are about `io.ReadFull`
